@@ -48,6 +48,19 @@ MergeHunksAt(p, n) ==
   ELSE <<MHunk(p, n)>>
 MergeHunks(n) == MergeHunksAt(<<>>, n)
 
+(* what jd's reader actually produces (v2/diff_read.go:468-514): {} at the root is the empty diff, *)
+(* every null - also at the root - becomes void; the order of the hunks is not modelled             *)
+RECURSIVE CodeMergeHunksAt(_, _)
+CodeMergeHunksAt(p, n) ==
+  IF IsObj(n) /\ Keys(n) # {} THEN
+       LET ks == SetToSeq(Keys(n))
+           RECURSIVE F(_)
+           F(i) == IF i > Len(ks) THEN <<>> ELSE CodeMergeHunksAt(Append(p, PKey(ks[i])), n.v[ks[i]]) \o F(i + 1)
+       IN F(1)
+  ELSE IF IsNull(n) THEN <<MHunk(p, Void)>>
+  ELSE <<MHunk(p, n)>>
+CodeMergeHunks(n) == IF n = EmptyObj THEN <<>> ELSE CodeMergeHunksAt(<<>>, n)
+
 (* jd's RenderMerge (v2/diff_write.go:271-291): apply the merge hunks to the void document, void as null *)
 VoidToNull(h) == [h EXCEPT !.add = [i \in DOMAIN h.add |-> IF IsVoid(h.add[i]) THEN Null ELSE h.add[i]]]
 RenderMergeModel(d) ==
